@@ -108,15 +108,16 @@ class IntRep(Representation, RepresentationWithMutation, RepresentationWithCross
     """A tiny real implementation of the representation API over integers: cheap individuals
     for step-level checks.  Programs are IntProg objects (so fitness sees a 'program')."""
 
-    def __init__(self):
+    def __init__(self, lossy_str=False):
         self.created = 0
+        self.lossy_str = lossy_str
 
     def create_genotype(self, random, **kwargs):
         self.created += 1
         return random.randint(0, 10**6)
 
     def genotype_to_phenotype(self, g):
-        return IntProg(g)
+        return LossyIntProg(g) if self.lossy_str else IntProg(g)
 
     def mutate(self, random, genotype, **kwargs):
         return genotype + random.randint(1, 1000)
@@ -125,8 +126,9 @@ class IntRep(Representation, RepresentationWithMutation, RepresentationWithCross
         return (parent1 * 3 + parent2) % (10**6 + 3), (parent2 * 3 + parent1) % (10**6 + 3)
 
 
-def make_intrep():
-    return IntRep()
+def make_intrep(lossy_str=False):
+    """lossy_str: programs whose printed form does not tell them apart (e.g. infix printing without parentheses)"""
+    return IntRep(lossy_str)
 
 
 class IntProg:
@@ -137,6 +139,13 @@ class IntProg:
 
     def __repr__(self):
         return f"P{self.v}"
+
+
+class LossyIntProg(IntProg):
+    __slots__ = ()
+
+    def __str__(self):
+        return f"P{self.v % 3}"
 
 
 def structural_hash(c) -> int:
